@@ -526,6 +526,13 @@ package table
 //@   requires p != nil && vrf != nil
 //@   claims at-return
 //@   at-return requires (newFamily == 0) ==> (rf != bgp.RF_FS_IPv4_UC && rf != bgp.RF_FS_IPv6_UC && rf != bgp.RF_IPv4_UC && rf != bgp.RF_IPv6_UC)
+// from C10 "what is configured ... is what is evaluated": a next-hop list that cannot be turned into a condition is
+// an error - not a statement that silently has no condition (and so matches every route)
+//@ props C10
+//@ func NewNextHopCondition
+//@   claims post
+//@   ensures len(c) > 0 && result0 == nil ==> result1 != nil
+//@ props C17
 //@ func CanImportToVrf
 //@   pure
 //@   requires v != nil && path != nil
